@@ -1181,6 +1181,10 @@ fn apply(w: &mut World, op: &Op, obs: &mut Obs) -> Result<Option<String>, String
                 w.m.edges.insert(Model::ekey(map[&a], map[&b]), t);
             }
             w.m.scalar = old.scalar.mul(&old.scalar);
+            // "the scalars are multiplied": the conditioned factors are part of the scalar
+            for (k, f) in old.factors.iter() {
+                w.m.factors.insert(k.clone(), f.mul(f));
+            }
             fn app<G: GraphLike + PartialEq>(
                 im: &mut Impl<G>,
                 map: &BTreeMap<Mid, Mid>,
